@@ -402,3 +402,79 @@ Definition run_case_c (c : ccase) : ov :=
   | CSession a b c d => ov_res (fun p => VL [VZ (fst p); VQ (snd p)]) (session_hft a b c d 1 (1#1))
   | CClass sp reg n => ov_res (fun _ => VB true) (find_class sp reg n)
   end.
+
+(* ---------------- C07: seed plumbing ---------------- *)
+(* Every component gets its own generator, seeded by one draw from the runner's generator, in creation order: the simulator,
+   then the markets, the agents, and per session the session followed by its events.  (The simulator draws once more from its
+   own generator for Fundamentals, which draws once for NumPy.) *)
+Inductive component := KSim | KMarket (i : nat) | KAgent (i : nat) | KSession (i : nat) | KEvent (s i : nat).
+Fixpoint session_components (evs : list nat) (s : nat) : list component :=
+  match evs with
+  | [] => []
+  | n :: r => KSession s :: map (KEvent s) (seq 0 n) ++ session_components r (S s)
+  end.
+Definition components (n_markets n_agents : nat) (events_per_session : list nat) : list component :=
+  KSim :: map KMarket (seq 0 n_markets) ++ map KAgent (seq 0 n_agents) ++ session_components events_per_session 0.
+(* component k is seeded by the k-th draw *)
+Definition seed_positions (nm na : nat) (evs : list nat) : list (component * nat) :=
+  combine (components nm na evs) (seq 0 (length (components nm na evs))).
+
+Lemma NoDup_app_gen {A} (l1 l2 : list A) : NoDup l1 -> NoDup l2 -> (forall x, In x l1 -> In x l2 -> False) -> NoDup (l1 ++ l2).
+Proof.
+  induction l1 as [|a r IH]; simpl; intros H1 H2 Hd; auto. inversion H1; subst. constructor.
+  - intro C. apply in_app_iff in C. destruct C as [C|C]; [auto|]. eapply Hd; eauto.
+  - apply IH; auto. intros x Hx. apply Hd. auto.
+Qed.
+
+Lemma map_fst_combine {A B} (l : list A) (l' : list B) : length l = length l' -> map fst (combine l l') = l.
+Proof. revert l'. induction l as [|a r IH]; intros [|b r']; simpl; intros H; auto; try discriminate. f_equal. apply IH. lia. Qed.
+Lemma map_snd_combine {A B} (l : list A) (l' : list B) : length l = length l' -> map snd (combine l l') = l'.
+Proof. revert l'. induction l as [|a r IH]; intros [|b r']; simpl; intros H; auto; try discriminate. f_equal. apply IH. lia. Qed.
+
+Lemma session_components_from evs : forall s c, In c (session_components evs s) ->
+  match c with KSession i => (s <= i)%nat | KEvent i _ => (s <= i)%nat | _ => False end.
+Proof.
+  induction evs as [|n r IH]; simpl; intros s c H; [destruct H|].
+  destruct H as [<-|H]; [lia|]. apply in_app_iff in H. destruct H as [H|H].
+  - apply in_map_iff in H. destruct H as [i [<- _]]. lia.
+  - specialize (IH _ _ H). destruct c; auto; lia.
+Qed.
+
+Lemma session_components_NoDup evs : forall s, NoDup (session_components evs s).
+Proof.
+  induction evs as [|n r IH]; simpl; intros s; [constructor|].
+  constructor.
+  - intro C. apply in_app_iff in C. destruct C as [C|C].
+    + apply in_map_iff in C. destruct C as [i [E _]]. discriminate.
+    + apply session_components_from in C. lia.
+  - apply NoDup_app_gen; auto.
+    + apply FinFun.Injective_map_NoDup; [intros x y E; inversion E; auto|apply seq_NoDup].
+    + intros c H1 H2. apply in_map_iff in H1. destruct H1 as [i [<- _]]. apply session_components_from in H2. lia.
+Qed.
+
+(* no two components share a seed draw, and no component is seeded twice *)
+Theorem seed_plumbing nm na evs :
+  NoDup (map fst (seed_positions nm na evs)) /\ NoDup (map snd (seed_positions nm na evs)) /\
+  length (seed_positions nm na evs) = (1 + nm + na + length evs + fold_right Nat.add 0 evs)%nat.
+Proof.
+  unfold seed_positions. rewrite combine_length, seq_length, Nat.min_id.
+  rewrite map_fst_combine, map_snd_combine by (rewrite seq_length; reflexivity).
+  split; [|split; [apply seq_NoDup|]].
+  - unfold components. constructor.
+    + intro C. apply in_app_iff in C. destruct C as [C|C]; [apply in_map_iff in C; destruct C as [i [E _]]; discriminate|].
+      apply in_app_iff in C. destruct C as [C|C]; [apply in_map_iff in C; destruct C as [i [E _]]; discriminate|].
+      apply session_components_from in C. exact C.
+    + apply NoDup_app_gen.
+      * apply FinFun.Injective_map_NoDup; [intros x y E; inversion E; auto|apply seq_NoDup].
+      * apply NoDup_app_gen.
+        -- apply FinFun.Injective_map_NoDup; [intros x y E; inversion E; auto|apply seq_NoDup].
+        -- apply session_components_NoDup.
+        -- intros c H1 H2. apply in_map_iff in H1. destruct H1 as [i [<- _]]. apply session_components_from in H2. exact H2.
+      * intros c H1 H2. apply in_map_iff in H1. destruct H1 as [i [<- _]]. apply in_app_iff in H2. destruct H2 as [H2|H2].
+        -- apply in_map_iff in H2. destruct H2 as [j [E _]]. discriminate.
+        -- apply session_components_from in H2. exact H2.
+  - unfold components. simpl. rewrite !app_length, !map_length, !seq_length.
+    assert (L : forall evs s, length (session_components evs s) = (length evs + fold_right Nat.add 0 evs)%nat).
+    { induction evs0 as [|n r IH]; simpl; intros; auto. rewrite app_length, map_length, seq_length, IH. lia. }
+    rewrite L. lia.
+Qed.
